@@ -6,6 +6,8 @@ ALL = ["C%02d" % i for i in range(1, 21)]
 BASE_OFF = "cd /repo && env -u ASCMHL_VERIF /venv/bin/python -m pytest -ra -q -p no:cacheprovider --timeout=900 --continue-on-collection-errors"
 T = "in-process CliRunner on tmpfs as accelerator, every alarm re-run in one fresh subprocess per command; CPython, hashlib, xxhash, lxml/libxml2 trusted; bounds and alphabets as listed in the evidence file"
 CHECKS = {
+ "C19": ("E1", "model_checking", "explicit-state BFS on the real code with info / info -sf evaluated as invariants in every state",
+         "In every state of two explorations (multi-generation histories with changing formats, failed entries, partial generations; nested chains and prefix-named siblings) info ROOT is compared with the generations and creation dates of every history, and info -sf (with and without root) of every recorded file with the digests recorded in its nearest enclosing history, all read by the independent reader.", "4 C19"),
  "C18": ("E1", "model_checking", "explicit-state BFS over flat histories on the real code; flatten + verify -pl evaluated as an invariant in every state",
          "Every flat history reachable within the bound by creates with changing format sets, partial -sf generations and alter/restore/add/remove edits is flattened; the packing list is compared with the summary computed from the on-disk manifests by the independent reader, the source tree is compared byte-wise, and verify -pl is run on the tree as it is and after tampering with each file.", "4 C18"),
  "C17": ("E1", "model_checking", "bounded-exhaustive exploration: sealed base x every rename assignment x command sequences on the real code",
